@@ -462,6 +462,10 @@ func RunCheck(o Options) int {
 				oc, alive := runCaseOn(w, c, 1)
 				if !alive {
 					w = nil
+				} else if oc.res.Recycle {
+					w.stdin.Close()
+					w.kill()
+					w = nil
 				}
 				mu.Lock()
 				outs = append(outs, oc)
